@@ -20,7 +20,7 @@ def hx(b):
     return bytes(b).hex() if len(b) else "-"
 
 
-def gen_actions(rng, mode, ns, rounds, q1, q2, mq, heavy, tests=False):
+def gen_actions(rng, mode, ns, rounds, q1, q2, mq, heavy, tests=False, only=None):
     """application schedule; returns (actions, info) with info[asdu bytes] = (direction, slave index, class, sequence number)"""
     acts, info, ident = {}, {}, 1
     last = int(rounds * 0.55)
@@ -28,6 +28,8 @@ def gen_actions(rng, mode, ns, rounds, q1, q2, mq, heavy, tests=False):
     while r < last:
         for i in range(ns):
             k = rng.below(10)
+            if only == "class1":       # nothing but spontaneous class 1 data: the master learns of it through the ACD bit alone
+                k = 0
             n = 1
             if heavy and rng.chance(1, 6):
                 n = rng.range(2, max(q1, q2) + 3)          # burst beyond the capacity: displacement
@@ -254,7 +256,7 @@ def run(ck):
         ck.fail("correspondence", "model-build", "extracted model does not build: " + str(e)[:300], {"theorem": "extraction"})
     scripts, meta, infos = [], {}, {}
     ncfg = 10 if quick else 40
-    for ci in range(ncfg):
+    for ci in range(ncfg + 4):
         mode = "bal" if ci % 2 == 0 else "unb"
         al = 1 + (ci // 2) % 2
         sc = (ci // 4) % 2
@@ -262,8 +264,11 @@ def run(ck):
         q1, q2, mq = rng.range(1, 20), rng.range(1, 20), rng.range(1, 20)
         if ci < 4:
             q1, q2, mq = (1, 2, 1) if ci < 2 else (3, 1, 2)
+        only = None
+        if ci >= ncfg:                  # unbalanced line on which only class 1 data is produced, with / without single-character ACK
+            mode, sc, ns, al, only = "unb", (ci - ncfg) % 2, 1 + (ci - ncfg) // 2, 1, "class1"
         rounds, tick = 110, 70
-        acts, info = gen_actions(rng, mode, ns, rounds, q1, q2, mq, heavy=True, tests=(ci % 4 >= 2))
+        acts, info = gen_actions(rng, mode, ns, rounds, q1, q2, mq, heavy=(only is None), tests=(ci % 4 >= 2 and only is None), only=only)
         tag = "c%d.%s.%d.%d.%d" % (ci, mode, al, sc, ns)
         drain = 3 * ns * (q1 + q2 + mq + 2) + 20      # rounds needed to empty full queues after the last disturbance
         base = L.exchange(mode, al, sc, ns, acts, rounds + drain, tick, q1=q1, q2=q2, mq=mq, tls=400)
